@@ -79,10 +79,13 @@ pub fn run_with_interpreter(mut it: Interpreter<f32>) {
         };
         match readline {
             Ok(line) => {
-                if line.is_empty() {
+                // without a terminal the editor returns the line together with its terminator;
+                // the line break between two lines of a form is added below, exactly once
+                let line = line.trim_end_matches(|c| c == '\n' || c == '\r');
+                if line.is_empty() && source.is_empty() {
                     continue;
                 }
-                source.push_str(line.as_str());
+                source.push_str(line);
                 if check_bracket_closed(source.chars()) {
                     match it.eval(source.chars()) {
                         Ok(opt) => {
